@@ -2785,7 +2785,12 @@ func (a *Agent) handlePeerDisconnect(conn *peer.Connection, err error) {
 
 // cleanupRelaysForPeer removes all relay entries involving the specified peer.
 func (a *Agent) cleanupRelaysForPeer(peerID identity.AgentID) {
-	if cleaned := a.tcpRelay.DeleteByPeer(peerID); cleaned > 0 {
+	// TCP streams, UDP associations and ICMP sessions are relayed through
+	// separate tables; all of them reference the peer connection that is gone.
+	cleaned := a.tcpRelay.DeleteByPeer(peerID) +
+		a.udpRelay.DeleteByPeer(peerID) +
+		a.icmpRelay.DeleteByPeer(peerID)
+	if cleaned > 0 {
 		a.logger.Debug("cleaned up relay streams",
 			logging.KeyPeerID, peerID.ShortString(),
 			logging.KeyCount, cleaned)
